@@ -20,7 +20,8 @@
                                    unknown = pre-gate special case under a condition the translator cannot interpret: no prediction)
   norm <name-hex>                → <normLoop-hex> <normFrame-hex>
   frame <c> <req>                → <code reply class> # <spec verdict> # <state of c afterwards> # <same|changed> # <replicas>
-  batch <c> <req> ; <req> ; …    → <class> ; <class> ; … # <state of c afterwards (QUIT applied)> # <same|changed> # <replicas>
+  batch <c> <req> ; <req> ; …    → <class> / <verdict> ; … # <state of c afterwards (QUIT applied)> # <same|changed> # <replicas>
+                                   (`skipped / skipped`: behind a QUIT that ended the batch — neither executed nor answered)
       req  := cmd <name-hex> <arg>… | badname | notarray        arg := <hex> | `~` (not a bulk string)
       reply class := err-noauth | err | ok | pong | echo <hex|~> | leak | continue | d <canonical reply of dispatch> | unknown
       spec verdict (the property's own oracle, from its own record of who presented the exact password):
@@ -36,7 +37,8 @@ namespace Ferrous.Drv.Auth
 open Ferrous Ferrous.Drv Ferrous.Auth
 
 /-- the model instantiated with the regenerated lists (the same definition as `C17.tree`) -/
-def tree : Cfg := Cfg.ofTables Gen.preGate Gen.authAllow Code.normLoop Code.normFrame
+def tree : Cfg :=
+  Cfg.ofTables Gen.preGate Gen.authAllow Code.normLoop (Code.normFrame Gen.frameNameTrimmed) Gen.quitEndsBatch
 
 abbrev Srv := Server KS.Store
 abbrev Rep := Reply KS.Store Frame
@@ -111,7 +113,7 @@ def specVerdict (st : St) (c : Nat) (req : Req) : String × Bool :=
   if st.specPassword.isNone ∨ c ∈ st.specAuthed then ("authenticated", false)
   else match req with
     | .cmd name args =>
-      let n := Code.normFrame name
+      let n := tree.normFrame name
       if n = AUTH then
         if Spec.authenticates st.specPassword args then ("auth-ok", true) else ("auth-fail", false)
       else if Spec.mayExecute true false n then ("harmless", false)
@@ -149,6 +151,7 @@ def step (st : St) (ws : List String) : St × String :=
       String.intercalate "|" (tree.allow.map fun p => toHex p.1 ++ ":" ++ showArm p.2) ++
       s!" default={if Gen.gateDefaultRefuses then 1 else 0} first={if Gen.gateIsFirst then 1 else 0} names={Gen.allCommandNames.length}" ++
       s!" unreadable={Gen.unreadable.length + (if cliRule.isNone || !Gen.passwordSourcesUnderstood then 1 else 0)} deferral={(Gen.deferral.splitOn ":").head!}" ++
+      s!" quitEndsBatch={if Gen.quitEndsBatch then 1 else 0} frameNameTrimmed={if Gen.frameNameTrimmed then 1 else 0}" ++
       s!" cliRule={(Gen.cliPasswordRule.splitOn ":").head!} idStart={Gen.connIdStart} subIds=" ++
       (if Gen.substituteConnIds.isEmpty then "." else String.intercalate "|" (Gen.substituteConnIds.map toString)))
   | ["configlines", cli, lines, given] =>
@@ -188,7 +191,7 @@ def step (st : St) (ws : List String) : St × String :=
     | none => (st, "bad-op")
   | ["norm", n] =>
     match ofHex n with
-    | some n => (st, toHex (Code.normLoop n) ++ " " ++ toHex (Code.normFrame n))
+    | some n => (st, toHex (tree.normLoop n) ++ " " ++ toHex (tree.normFrame n))
     | none => (st, "bad-op")
   | ["state", c] =>
     match c.toNat? with
@@ -216,10 +219,13 @@ def step (st : St) (ws : List String) : St × String :=
   | "batch" :: c :: rest =>
     match c.toNat?, (splitSemi rest).mapM parseReq with
     | some c, some reqs =>
-      let (st', out) := reqs.foldl (fun (acc : St × List String) req =>
+      -- the frame loop: a QUIT that was processed ends the batch when `tree.quitEndsBatch` (what follows is `skipped`: neither
+      -- executed nor answered — the Spec says the same: nothing behind QUIT may run)
+      let (st', out, quitSeen) := reqs.foldl (fun (acc : St × List String × Bool) req =>
+        if acc.2.2 && tree.quitEndsBatch then (acc.1, acc.2.1 ++ ["skipped / skipped"], true) else
         let (st1, cls, verdict) := doFrame acc.1 c req
-        (st1, acc.2 ++ [cls ++ " / " ++ verdict])) (st, [])
-      let s'' := if reqs.any (Code.isQuit tree) then { st'.s with conns := setState st'.s.conns c .closing } else st'.s
+        (st1, acc.2.1 ++ [cls ++ " / " ++ verdict], acc.2.2 || Code.isQuit tree req)) (st, [], false)
+      let s'' := if quitSeen then { st'.s with conns := setState st'.s.conns c .closing } else st'.s
       ({ st' with s := s'' }, String.intercalate " ; " out ++ s!" # {showState (stateOf s''.conns c)} # " ++
         (if others s'' c == others st.s c then "same" else "changed") ++ s!" # {s''.replicas.length}")
     | _, _ => (st, "bad-op")
